@@ -430,4 +430,6 @@ func runC03(c *Case) error {
 
 func init() {
 	register(&Family{ID: "C03", Import: "Corr.C03", Gen: genC03, Run: runC03})
+	// the same requests judged by C02's clause: the scores of an accepted compute form a distribution
+	register(&Family{ID: "C02o", Import: "Corr.C02o", Gen: genC03, Run: runC03})
 }
